@@ -99,10 +99,12 @@ META = {
         note='Shares rule instances with C14.',
         design='DESIGN.md section 3 (C15)'),
     'C16': dict(
-        technique='static analysis: paired-update and composition-chain rules on term graphs (only the net-reordering clause)',
+        technique='static analysis: paired-update and composition-chain rules on term graphs (net-reordering clause) + exhaustive enumeration of the branch outcomes of '
+                  'alignment_plan (band-edge condition of plan coverage)',
         level='Only the net-reordering clause is claimed: DHTV applies each per-bin permutation with the same index vector, bin and guard to features and mapping (identity start, self-gather only, '
               'on a copy, centroid from the current features); the greedy aligner composes adjacent-bin assignments with the composed predecessor in increasing f from an identity column. '
-              'Recovery of a consistent order, identity on consistent masks and plan coverage are NOT decided (no sound static argument in reach).',
+              'Of plan coverage only a necessary condition is decided: for every outcome of the branch conditions of alignment_plan some segment is stretched to each band edge (0 and F). '
+              'Recovery of a consistent order, identity on consistent masks and full plan coverage are NOT decided (no sound static argument in reach).',
         note='The behavioural clauses of C16 quantify over all masks / all plan configurations; see DESIGN.md section 6.',
         design='DESIGN.md section 3 (C16)'),
     'C05': dict(
